@@ -423,6 +423,102 @@ func genRemoval(r *rand.Rand, maxKeys int) ruleSet {
 	return ruleSet{Engine: pickEngine(r), Rules: b.rules, Shape: "removal"}
 }
 
+// genSeries: one WAF, 2-4 transactions in sequence (each closed before the next, so the pooled
+// Transaction object is handed back). Earlier transactions fire allow / allow:request / allow:phase /
+// skip / skipAfter(absent marker) / deny / ctl:ruleEngine and end at every possible point (after phase
+// 1..4 without ProcessLogging, or completely); the last one is a plain transaction (no directive rule
+// matches) that must behave exactly as on a fresh WAF and as the model says for it alone.
+func genSeries(r *rand.Rand) ruleSet {
+	b := &builder{r: r, maxKeys: 48}
+	nDir := 1 + r.Intn(3)
+	var dirKeys []int
+	directive := func() {
+		p := 1 + r.Intn(4)
+		var acts []actJ
+		eng := ""
+		switch x := r.Intn(12); {
+		case x < 3:
+			acts = []actJ{{A: "allow"}}
+		case x < 5:
+			acts = []actJ{{A: "allow", Scope: "request"}}
+			p = 1 + r.Intn(2)
+		case x < 6:
+			acts = []actJ{{A: "allow", Scope: "phase"}}
+		case x < 7:
+			acts = []actJ{{A: "skip", N: 1 + r.Intn(4)}}
+		case x < 8:
+			acts = []actJ{{A: "skipAfter", M: "NOPE"}}
+		case x < 9:
+			acts = disruptiveWithFlow(r)
+		case x < 10:
+			acts = []actJ{{A: "deny"}}
+		default:
+			eng = []string{"Off", "Off", "DetectionOnly"}[r.Intn(3)]
+		}
+		ru := b.rule(p, 1, acts, false)
+		ru.Links[0].Eng = eng
+		dirKeys = append(dirKeys, ru.Links[0].Key)
+	}
+	plain := func(p int) { b.rule(p, 1, nil, r.Intn(3) != 0) }
+	for p := 1; p <= 5; p++ {
+		if r.Intn(4) != 0 {
+			plain(p)
+		}
+	}
+	for i := 0; i < nDir; i++ {
+		directive()
+		if r.Intn(2) == 0 {
+			plain(1 + r.Intn(5))
+		}
+	}
+	if r.Intn(3) == 0 {
+		// allow:request followed by ctl:ruleEngine=Off in the same phase: the allow is never consumed
+		ru := b.rule(1, 1, []actJ{{A: "allow", Scope: "request"}}, false)
+		k := ru.Links[0].Key
+		ru2 := b.rule(1, 1, nil, false)
+		ru2.Links[0].Key = k
+		ru2.Links[0].Eng = "Off"
+		dirKeys = append(dirKeys, k)
+	}
+	for p := 1; p <= 5; p++ {
+		plain(p)
+	}
+	n := nKeys(b.rules)
+	isDir := map[int]bool{}
+	for _, k := range dirKeys {
+		isDir[k] = true
+	}
+	mk := func(dirOn bool) []bool {
+		req := make([]bool, n)
+		any := false
+		for k := range req {
+			if isDir[k] {
+				req[k] = dirOn && r.Intn(3) != 0
+				any = any || req[k]
+			} else {
+				req[k] = r.Intn(4) != 0
+			}
+		}
+		if dirOn && !any {
+			req[dirKeys[r.Intn(len(dirKeys))]] = true
+		}
+		return req
+	}
+	set := ruleSet{Engine: "On", Rules: b.rules, Shape: "series"}
+	if r.Intn(8) == 0 {
+		set.Engine = "DetectionOnly"
+	}
+	for i := 1 + r.Intn(2); i > 0; i-- {
+		var hist []histStep
+		for j := 1 + r.Intn(3); j > 0; j-- {
+			hist = append(hist, histStep{Req: mk(true), Stop: 1 + r.Intn(5)})
+		}
+		set.Reqs = append(set.Reqs, mk(false))
+		set.Hists = append(set.Hists, hist)
+	}
+	return set
+}
+
 func hasMarkerAfterJumper(rules []ruleJ, m string) bool {
 	seenJumper := false
 	for _, r := range rules {
@@ -474,6 +570,13 @@ func generate(cfg vh.Config) []ruleSet {
 	exhaustiveKeys := cfg.Pick(4, 6)
 	for i := 0; total < budget; i++ {
 		var s ruleSet
+		if i%11 == 10 {
+			s := genSeries(r)
+			s.Shape += "/sampled"
+			total += len(s.Reqs)
+			sets = append(sets, s)
+			continue
+		}
 		switch i % 10 {
 		case 4:
 			s = genRemoval(r, 2+r.Intn(exhaustiveKeys-1))
